@@ -146,7 +146,15 @@ def _observe(ctx: Any, ip: Any, hist: Dict[str, Any], sched: Dict[int, str], win
             ctx.count("unobservable")
             ctx.tag("tag_unobservable", (to_only.error or filtered.error)[:80])
             continue
-        shown, hidden, pre_window = _compare(ctx, hist, sched, base.computed, to_only.computed, filtered.computed, from_d, to_d, case)
+        try:
+            shown, hidden, pre_window = _compare(ctx, hist, sched, base.computed, to_only.computed, filtered.computed, from_d, to_d, case)
+        except Exception as exc:  # pylint: disable=broad-except
+            # the filtered ComputedData exists but cannot be read back (RP2's own accessors raise): nothing can be shown for
+            # the window although the unfiltered run is fine
+            import traceback
+
+            ctx.violation("filter.filtered-result-unreadable", {"error": f"{type(exc).__name__}: {str(exc)[:200]}", "where": traceback.format_exc().strip().splitlines()[-3][:160], "window": [from_s, to_s]}, case)
+            continue
         ctx.count("windows_checked")
         ctx.count("fractions_shown_compared", shown)
         if (from_d in dates) or (to_d in dates):
